@@ -153,6 +153,10 @@ pub struct RefOut {
     pub first_header_failed: bool,
     /// number of length fields that disagree with the data in front of / at the fault (for stats)
     pub len_mismatch: u32,
+    /// lax only: the ether type announces one IP version and the version nibble the other supported
+    /// one. What lax decoding does then is crate policy that the documentation does not fix (today:
+    /// follow the nibble); checks skip such inputs instead of asserting either behaviour.
+    pub policy_ambiguous: bool,
 }
 
 impl RefOut {
@@ -222,7 +226,7 @@ pub fn decode(start: Start, d: &[u8], lax: bool) -> RefOut {
     let mut dec = Dec {
         d,
         lax,
-        out: RefOut { start, lax, layers: vec![], start_pay: w.pay(start_id), faults: vec![], stop_note: None, first_header_failed: false, len_mismatch: 0 },
+        out: RefOut { start, lax, layers: vec![], start_pay: w.pay(start_id), faults: vec![], stop_note: None, first_header_failed: false, len_mismatch: 0, policy_ambiguous: false },
     };
     dec.run(start, w);
     dec.out
@@ -265,6 +269,12 @@ impl<'a> Dec<'a> {
             n => n,
         };
         if let Next::Ip { by_version, expect_v4 } = next {
+            if self.lax && by_version && start != Start::Ip && w.avail() >= 1 {
+                let v = self.d[w.off] >> 4;
+                if (v == 4 && !expect_v4) || (v == 6 && expect_v4) {
+                    self.out.policy_ambiguous = true;
+                }
+            }
             let had_layers = !self.out.layers.is_empty();
             let n_before = self.out.layers.len();
             self.ip(&mut w, by_version, expect_v4);
